@@ -7,9 +7,11 @@ Tie        : translator (GenRepoint) + correspondence
                forests    real repoint_parents_to_surviving_ancestors vs Model/Meta.v repoint_all (frame + Gen),
                           EXHAUSTIVE: every parent map on <= 5 snapshots x every kept subset, plus maps with
                           None / -1 / dangling parents and duplicated ids (last dict binding wins)
-               histories  random operation histories (append, multi-op transaction, delete_files in every
-                          spelling, expire_snapshots, delete_snapshot, retention / previous-versions-max
-                          properties, garbage_collect) on the real library (local backend) under a scripted
+               histories  random operation histories (append, multi-op transaction, RE-REGISTRATION of already
+                          listed data files -- across commits, inside one append_files call, under either
+                          spelling -- delete_files in every spelling, expire_snapshots, delete_snapshot,
+                          retention / previous-versions-max properties, garbage_collect, reopen), plus
+                          "shape" histories (few files registered over and over, then deleted) on the real library (local backend) under a scripted
                           clock (equal / decreasing timestamps) and seeded uuid4; after EVERY step the
                           metadata JSON and manifests, read by an independent reader (json + fastavro), must
                           equal the model's state (ids canonicalised by order of first appearance)
@@ -22,7 +24,11 @@ Tie        : translator (GenRepoint) + correspondence
 Oracle /   : implementation-only, independent of the model: the well-formedness predicate of the property
 search       text judged directly on the implementation's metadata after every step, with a ghost history
              kept by the harness (true ancestors, commit order, provenance of manifest entries, superseded
-             metadata versions); failing histories are shrunk (one-op-out) before the replay is written.
+             metadata versions; registrations are tracked as (path, adding snapshot, sequence number), a path
+             may have several); failing histories are shrunk before the replay is written.
+Bounds     : every history runs in its own forked process (address-space limit, interval timer inside, kill
+             deadline outside); the forest sweep and the unit calls run under an interval timer.  A library call
+             that does not return or exhausts memory is reported as a violation with the history, never a stuck check.
 """
 from __future__ import annotations
 
@@ -45,7 +51,7 @@ LEVEL = "proof"
 THEOREMS = [
     "C15_wf_invariant", "C15_seq_in_log_order", "C15_last_seq_mono", "C15_no_abort", "C15_repoint_nearest",
     "C15_nearest_is_ancestor", "C15_repoint_cycle", "C15_current_kept", "C15_delete_exact", "C15_entries_provenance",
-    "C15_repoint_all", "C15_txn_files", "C15_mlog_ok", "C09_by_timestamp", "C09_delete_current", "C09_by_id",
+    "C15_repoint_all", "C15_txn_files", "C15_delete_complete", "C15_txn_delete_complete", "C15_mlog_ok", "C09_by_timestamp", "C09_delete_current", "C09_by_id",
 ]
 REQ = ["DS.Model.MetaBase", "DS.Gen.GenRepoint", "DS.Model.Meta"]
 
@@ -175,6 +181,39 @@ class SeededUUID:
 TS_POOL = [1000, 1000, 1001, 1002, 1003, 1005, 1008, 990, 1500]
 
 
+def _append_element(rng: random.Random) -> Any:
+    """One file of an append_files call: a new pre-built file under spelling 0/1, or an already registered one again."""
+    if rng.random() < 0.35:
+        return ["re", rng.randrange(64), rng.choice([0, 1, 1])]
+    return rng.choice([0, 1])
+
+
+def gen_shape_history(rng: random.Random, max_steps: int) -> Dict[str, Any]:
+    """Histories about the SHAPE of the manifest list rather than the snapshot graph: few files, registered over and
+    over across commits (and inside one commit), in both spellings, interleaved with deletes that name them -- so a
+    path occurs in several manifests / several times in one manifest when the delete arrives."""
+    ops: List[Dict[str, Any]] = []
+    n = rng.randint(3, max(4, min(max_steps, 12)))
+    for i in range(n):
+        t, tu = rng.choice(TS_POOL), rng.choice(TS_POOL)
+        r = rng.random()
+        if i < 2 or r < 0.15:
+            ops.append({"k": "txn", "ops": [["append", ["auto"] if rng.random() < 0.5 else [rng.choice([0, 1])]]], "t": t, "tu": tu})
+        elif r < 0.55:
+            els = [["re", rng.randrange(8), rng.choice([0, 1])] for _ in range(rng.choice([1, 1, 2, 3]))]
+            ops.append({"k": "txn", "ops": [["append", els]], "t": t, "tu": tu})
+        elif r < 0.85:
+            sub = [["delete", [[rng.randrange(1, 8), rng.choice([0, 1])] for _ in range(rng.choice([1, 1, 2]))]]]
+            if rng.random() < 0.25:
+                sub.insert(rng.choice([0, 1]), ["append", [["re", rng.randrange(8), rng.choice([0, 1])]]])
+            ops.append({"k": "txn", "ops": sub, "t": t, "tu": tu})
+        elif r < 0.93:
+            ops.append({"k": "delsnap", "ref": rng.randrange(8), "pick": rng.choice(["current", "retained"]), "tu": tu})
+        else:
+            ops.append({"k": "txn", "ops": [["expire", rng.choice(TS_POOL)]], "t": t, "tu": tu})
+    return {"ops": ops, "uuid_seed": rng.getrandbits(32), "t0": rng.choice(TS_POOL)}
+
+
 def gen_history(rng: random.Random, max_steps: int) -> Dict[str, Any]:
     n = rng.randint(3, max_steps)
     mode = rng.choice(["any", "any", "equal", "decreasing", "increasing"])
@@ -203,14 +242,18 @@ def gen_history(rng: random.Random, max_steps: int) -> Dict[str, Any]:
             for _i in range(rng.choice([1, 2, 2, 3, 4])):
                 q = rng.random()
                 if q < 0.35:
-                    sub.append(["append", ["auto"]] if rng.random() < 0.6 else
-                               ["append", [rng.choice([0, 1]) for _j in range(rng.choice([0, 1, 2, 3]))]])
+                    sub.append(["append", ["auto"]] if rng.random() < 0.5 else
+                               ["append", [_append_element(rng) for _j in range(rng.choice([0, 1, 2, 3]))]])
                 elif q < 0.75:
                     sub.append(["delete", [[rng.randrange(64), rng.choice([0, 1, 1, 2])] for _j in range(rng.choice([0, 1, 1, 2, 3]))]])
                 else:
                     sub.append(["expire", rng.choice(TS_POOL + [0, 5000])])
             ops.append({"k": "txn", "ops": sub, "t": next_t(), "tu": tu})
-        elif r < 0.63:
+        elif r < 0.59:
+            # the same data file registered again (possibly twice at once, in either spelling)
+            ops.append({"k": "txn", "ops": [["append", [["re", rng.randrange(64), rng.choice([0, 1, 1])] for _j in range(rng.choice([1, 1, 2]))]]],
+                        "t": next_t(), "tu": tu})
+        elif r < 0.64:
             ops.append({"k": "txn", "ops": [["delete", [[rng.randrange(64), rng.choice([0, 1, 2])]]]], "t": next_t(), "tu": tu})
         elif r < 0.71:
             ops.append({"k": "txn", "ops": [["expire", rng.choice(TS_POOL + [0, 5000])]], "t": next_t(), "tu": tu})
@@ -253,6 +296,7 @@ class Driver:
         self.lookups: List[Tuple[str, Any]] = []  # (model expr, impl answer)
         self.oracle = Oracle(self.reader)
         self.oracle_error: Optional[str] = None
+        self.nrereg = 0
 
     # -- helpers --------------------------------------------------------------------------------
     def _data_listing(self) -> set:
@@ -289,6 +333,20 @@ class Driver:
                        file_size_in_bytes=df.file_size_in_bytes, checksum=df.checksum)
         return out, (spelling, name)
 
+    def _known_file(self, ref: int, spelling: int):
+        """Register AGAIN a data file the table already knows (a re-run ingestion job): same file on disk, any
+        spelling of its path. Falls back to a fresh file while nothing registrable exists."""
+        from datashard import DataFile, FileFormat
+        live = [n for n in sorted(self.file_rev) if os.path.isfile(os.path.join(self.root, self.file_rev[n]))]
+        if not live:
+            return self._custom_file(spelling)
+        name = live[ref % len(live)]
+        body = self.file_rev[name]
+        self.nrereg += 1
+        out = DataFile(file_path="/" * spelling + body, file_format=FileFormat.PARQUET, partition_values={}, record_count=1,
+                       file_size_in_bytes=os.path.getsize(os.path.join(self.root, body)))
+        return out, (spelling, name)
+
     # -- one step -------------------------------------------------------------------------------
     def step(self, idx: int, op: Dict[str, Any]) -> None:
         sid = idx + 1            # the model's snapshot id / file id for this step
@@ -313,8 +371,8 @@ class Driver:
                             parts.append(f"TAppend [(1, {name})]")
                         else:
                             dfs, names = [], []
-                            for sp in sub[1]:
-                                df, nm = self._custom_file(sp)
+                            for el in sub[1]:
+                                df, nm = self._custom_file(el) if isinstance(el, int) else self._known_file(el[1], el[2])
                                 dfs.append(df)
                                 names.append(nm)
                             tx.append_files(dfs)
@@ -486,7 +544,9 @@ class Oracle:
         self.reader = reader
         self.ghost: Dict[int, Dict[str, Any]] = {}
         self.order: List[int] = []
-        self.added: Dict[str, Tuple[int, int]] = {}      # normalised data path -> (adding snapshot, seq)
+        # every registration ever committed: (normalised path, adding snapshot, sequence number). A path may be
+        # registered more than once (append_files accepts an already listed file); each registration is its own entry.
+        self.added: set = set()
         self.versions: List[Tuple[str, int]] = []        # (metadata file, last_updated it carried) in commit order
         self.last_seq = None
         self.prev_md: Optional[Dict[str, Any]] = None
@@ -530,11 +590,11 @@ class Oracle:
                                                 "seq": s["sequence_number"], "ml": s["manifest_list"]}
                 self.order.append(s["snapshot_id"])
                 for p, st, added, sq in self.files_of(s):
-                    if _norm(p) not in self.added:
+                    if (_norm(p), added, sq) not in self.added:
                         if st != 1 or added != s["snapshot_id"] or sq != s["sequence_number"]:
-                            self.fail("entry-new", f"{tag}: new file {p} entered with status {st}, snapshot {added}, seq {sq} "
+                            self.fail("entry-new", f"{tag}: new entry {p} entered with status {st}, snapshot {added}, seq {sq} "
                                                    f"(committing snapshot {s['snapshot_id']}, seq {s['sequence_number']})")
-                        self.added[_norm(p)] = (added, sq)
+                        self.added.add((_norm(p), added, sq))
         # 0. ids unique; retained snapshots immutable apart from the parent link
         if len(set(ids)) != len(ids):
             self.fail("ids-duplicate", f"{tag}: duplicate snapshot ids {ids}")
@@ -574,9 +634,10 @@ class Oracle:
         # 5. carried entries keep adding snapshot and sequence number
         for s in snaps:
             for p, st, added, sq in self.files_of(s):
-                if self.added.get(_norm(p)) != (added, sq):
-                    self.fail("entry-rewritten", f"{tag}: file {p} in snapshot {s['snapshot_id']} carries (snapshot {added}, seq {sq}), "
-                                                 f"was added with {self.added.get(_norm(p))}")
+                if (_norm(p), added, sq) not in self.added:
+                    was = sorted((a, q) for (pp, a, q) in self.added if pp == _norm(p))
+                    self.fail("entry-rewritten", f"{tag}: file {p} in snapshot {s['snapshot_id']} carries (snapshot {added}, seq {sq}); "
+                                                 f"it was registered as {was}")
         # 6. a file delete removes exactly the named files / 7. the current snapshot is never expired
         if op["k"] == "txn" and rec["outcome"] == "Committed" and self.prev_md is not None:
             self._check_txn(tag, op, md, rec.get("deleted_paths", []))
@@ -616,25 +677,34 @@ class Oracle:
             return
         named = set(rec_deleted)
         base_snap = next((s for s in prev["snapshots"] if s["snapshot_id"] == pcur), None)
-        base = [t[0] for t in self.files_of(base_snap)] if base_snap else []
+        base = [(t[0], t[2], t[3]) for t in self.files_of(base_snap)] if base_snap else []
         new_snap = next((s for s in md["snapshots"] if s["snapshot_id"] == cur), None)
         if new_snap is None:
             return
-        now = [t[0] for t in self.files_of(new_snap)]
+        now_all = [(t[0], t[2], t[3]) for t in self.files_of(new_snap)]
+        # entries the new snapshot CARRIES from its base (anything stamped with the new snapshot's own id is an append
+        # of this transaction, whatever its path: queued deletes act on the base, queued appends are added after)
+        carried = [e for e in now_all if e[1] != cur]
         # A path names a file in either of the two spellings the library documents: "data/x" and "/data/x".
         # Other spellings ("//data/x") are left unspecified by the property: no demand either way.
         recognised = {_norm(p) for p in named if p == _norm(p) or p == "/" + _norm(p)}
         any_spelling = {_norm(p) for p in named}
-        base_n = [_norm(b) for b in base]
-        now_n = {_norm(p) for p in now}
-        wrongly_kept = sorted(b for b in base_n if b in recognised and b in now_n)
-        wrongly_removed = sorted(b for b in base_n if b not in any_spelling and b not in now_n)
+        key = lambda e: (_norm(e[0]), e[1], e[2])
+        wrongly_kept = sorted(key(e) for e in carried if _norm(e[0]) in recognised)
+        from collections import Counter
+        must_stay = Counter(key(e) for e in base if _norm(e[0]) not in any_spelling)
+        stayed = Counter(key(e) for e in carried if _norm(e[0]) not in any_spelling)
+        invented = Counter(key(e) for e in carried) - Counter(key(e) for e in base)
+        show_now = sorted(key(e) for e in now_all)
         if wrongly_kept:
-            self.fail("delete-missed", f"{tag}: delete_files({sorted(named)}) on base files {sorted(base)} left the named "
-                                       f"file(s) {wrongly_kept} in the new snapshot {sorted(now)}")
-        if wrongly_removed:
-            self.fail("delete-extra", f"{tag}: delete_files({sorted(named)}) on base files {sorted(base)} also removed "
-                                      f"{wrongly_removed}; new snapshot {sorted(now)}")
+            self.fail("delete-missed", f"{tag}: delete_files({sorted(named)}) on base entries {sorted(key(e) for e in base)} left the "
+                                       f"named file(s) {wrongly_kept} in the new snapshot {show_now}")
+        if must_stay - stayed:
+            self.fail("delete-extra", f"{tag}: delete_files({sorted(named)}) on base entries {sorted(key(e) for e in base)} also "
+                                      f"removed {sorted((must_stay - stayed).elements())}; new snapshot {show_now}")
+        if stayed - must_stay or invented:
+            self.fail("carry-invented", f"{tag}: the new snapshot carries entries its base did not have: "
+                                        f"{sorted(((stayed - must_stay) + invented).elements())}")
 
 
 # ================================================================================== one history, end to end
@@ -647,17 +717,41 @@ Definition nth_state (t0 : Z) (ops : list op) (k : nat) : state := run (init t0 
 """
 
 
+HISTORY_LIMIT_S = 45.0           # one history normally takes well under a second
+MAX_HANGS = 3                    # after that many, the remaining histories are not started (the finding is established)
+CASE_MEMORY_BYTES = 4 << 30      # address-space limit of the process that runs one history
+
+
+class HistoryHang(BaseException):
+    """Raised by the interval timer inside the library call; BaseException so that no `except Exception` eats it."""
+
+
 def run_history(args: Tuple[str, Dict[str, Any]]) -> Dict[str, Any]:
     """Worker: run one history on the real library, judge it with the oracle. Returns plain data."""
     root, hist = args
     shutil.rmtree(root, ignore_errors=True)
     d = Driver(root, hist)
     res: Dict[str, Any] = {"hist": hist}
+    import signal
+
+    def on_alarm(_sig, _frm):
+        raise HistoryHang()
+
+    limit = float(hist.get("_limit_s", HISTORY_LIMIT_S))
+    old_handler = signal.signal(signal.SIGALRM, on_alarm)
+    signal.setitimer(signal.ITIMER_REAL, limit)
     try:
         d.run()
+    except HistoryHang:
+        res["hang"] = {"after_steps": len(d.raw), "limit_s": limit}
+    except MemoryError:
+        res["crash"] = {"after_steps": len(d.raw), "what": "MemoryError (address-space limit of the case reached)"}
     except Exception as e:
         import traceback
         res["driver_error"] = traceback.format_exc()[-1500:]
+    finally:
+        signal.setitimer(signal.ITIMER_REAL, 0)
+        signal.signal(signal.SIGALRM, old_handler)
     orc = d.oracle
     if d.oracle_error:
         res["oracle_error"] = d.oracle_error
@@ -671,7 +765,8 @@ def run_history(args: Tuple[str, Dict[str, Any]]) -> Dict[str, Any]:
 
 def _shape(d: Driver) -> Dict[str, Any]:
     md = d.raw[-1]["metadata"] if d.raw else {"snapshots": []}
-    return {"snapshots_committed": len(d.snap_ids), "retained_at_end": len(md["snapshots"]), "files": d.nfiles}
+    return {"snapshots_committed": len(d.snap_ids), "retained_at_end": len(md["snapshots"]), "files": d.nfiles,
+            "reregistered": d.nrereg}
 
 
 def model_states(cases: List[Dict[str, Any]]) -> List[Any]:
@@ -708,14 +803,87 @@ def _plain(x: Any) -> Any:
     return x
 
 
+def _empty_result(hist: Dict[str, Any], **kw: Any) -> Dict[str, Any]:
+    r = {"hist": hist, "model_ops": [], "observed": [], "errors": [], "oracle": [], "lookups": [], "nsteps": 0,
+         "outcomes": [], "excs": [], "shape": {"snapshots_committed": 0, "retained_at_end": 0, "files": 0, "reregistered": 0}}
+    r.update(kw)
+    return r
+
+
+def _child(conn, args) -> None:
+    import resource
+    try:
+        resource.setrlimit(resource.RLIMIT_AS, (CASE_MEMORY_BYTES, CASE_MEMORY_BYTES))
+    except Exception:
+        pass
+    try:
+        res = run_history(args)
+    except BaseException as e:   # noqa: BLE001 -- the parent must always get an answer
+        res = _empty_result(args[1], crash={"after_steps": 0, "what": f"{type(e).__name__}: {e}"[:300]})
+    try:
+        conn.send(res)
+    finally:
+        conn.close()
+        os._exit(0)
+
+
+def run_isolated_many(jobs: List[Tuple[str, Dict[str, Any]]], workers: int) -> List[Dict[str, Any]]:
+    """Every history runs in its own forked process with an address-space limit, an interval timer inside (a library
+    call that does not return becomes a reported hang with the partial run) and a parent-side deadline after which the
+    process is killed (covers a hang inside C code). The check itself can therefore not get stuck on the library."""
+    import multiprocessing as mp
+    import time
+    ctxm = mp.get_context("fork")
+    results: List[Optional[Dict[str, Any]]] = [None] * len(jobs)
+    running: Dict[int, Any] = {}
+    nxt = 0
+    hangs = 0
+    while nxt < len(jobs) or running:
+        if hangs >= MAX_HANGS:
+            nxt = len(jobs)                      # do not start more; what runs keeps its own deadline
+        while nxt < len(jobs) and len(running) < workers:
+            pc, cc = ctxm.Pipe(duplex=False)
+            pr = ctxm.Process(target=_child, args=(cc, jobs[nxt]), daemon=True)
+            pr.start()
+            cc.close()
+            limit = float(jobs[nxt][1].get("_limit_s", HISTORY_LIMIT_S))
+            running[nxt] = (pr, pc, time.time() + limit + 30.0)
+            nxt += 1
+        done = []
+        for i, (pr, pc, deadline) in running.items():
+            if pc.poll(0):
+                try:
+                    results[i] = pc.recv()
+                except (EOFError, OSError):
+                    results[i] = _empty_result(jobs[i][1], crash={"after_steps": 0, "what": f"the process running the history died (exit code {pr.exitcode})"})
+                done.append(i)
+            elif not pr.is_alive():
+                results[i] = _empty_result(jobs[i][1], crash={"after_steps": 0, "what": f"the process running the history died (exit code {pr.exitcode})"})
+                done.append(i)
+            elif time.time() > deadline:
+                pr.kill()
+                results[i] = _empty_result(jobs[i][1], hang={"after_steps": None, "limit_s": deadline, "killed": True})
+                done.append(i)
+        for i in done:
+            if results[i] is not None and (results[i].get("hang") or results[i].get("crash")):
+                hangs += 1
+            pr, pc, _ = running.pop(i)
+            pc.close()
+            pr.join(5)
+            shutil.rmtree(jobs[i][0], ignore_errors=True)
+        if not done:
+            time.sleep(0.01)
+    return [r for r in results if r is not None]
+
+
+def run_isolated(root: str, hist: Dict[str, Any]) -> Dict[str, Any]:
+    return run_isolated_many([(root, hist)], 1)[0]
+
+
 def run_histories(ctx, hists: List[Dict[str, Any]], label: str) -> List[Dict[str, Any]]:
     jobs = [(os.path.join(ctx.scratch, f"{label}{i}"), h) for i, h in enumerate(hists)]
     workers = min(int(os.environ.get("VERIF_JOBS", "16")), max(1, len(jobs)))
-    if workers <= 1:
-        return [run_history(j) for j in jobs]
-    import multiprocessing as mp
-    with ProcessPoolExecutor(max_workers=workers, mp_context=mp.get_context("fork")) as ex:
-        return list(ex.map(run_history, jobs, chunksize=2))
+    return run_isolated_many(jobs, workers)
 
 
 # ---------------------------------------------------------------------------------- shrinking
@@ -776,16 +944,20 @@ def shrink(ctx, hist: Dict[str, Any], still_fails, budget: int = 90) -> Dict[str
             if op["k"] != "txn":
                 continue
             for j, sub in enumerate(op["ops"]):
-                if sub[0] != "delete":
+                if sub[0] not in ("delete", "append"):
                     continue
                 for k in range(len(sub[1])):
-                    if cur["ops"][i]["ops"][j][1][k][0] <= 3:
+                    el = cur["ops"][i]["ops"][j][1][k]
+                    if not isinstance(el, list):
+                        continue                      # "auto" / a spelling: nothing to lower
+                    pos = 1 if el[0] == "re" else 0   # ["re", ref, spelling] or [ref, spelling]
+                    if el[pos] <= 3:
                         continue
-                    for r in (1, 2, 3):
+                    for r in (0, 1, 2, 3):
                         opn = cur["ops"][i]
                         subn = opn["ops"][j]
-                        els = [list(e) for e in subn[1]]
-                        els[k][0] = r
+                        els = [list(e) if isinstance(e, list) else e for e in subn[1]]
+                        els[k][pos] = r
                         op2 = dict(opn, ops=opn["ops"][:j] + [[subn[0], els]] + opn["ops"][j + 1:])
                         if attempt(dict(cur, ops=cur["ops"][:i] + [op2] + cur["ops"][i + 1:])):
                             progress = True
@@ -795,14 +967,14 @@ def shrink(ctx, hist: Dict[str, Any], still_fails, budget: int = 90) -> Dict[str
 
 def oracle_fails(ctx, key: str):
     def f(h: Dict[str, Any]) -> bool:
-        r = run_history((os.path.join(ctx.scratch, "shrink"), h))
+        r = run_isolated(os.path.join(ctx.scratch, "shrink"), h)
         return any(k == key for k, _ in r["oracle"])
     return f
 
 
 def corr_fails(ctx):
     def f(h: Dict[str, Any]) -> bool:
-        r = run_history((os.path.join(ctx.scratch, "shrink"), h))
+        r = run_isolated(os.path.join(ctx.scratch, "shrink"), h)
         if r.get("driver_error") or not r["model_ops"]:
             return False
         try:
@@ -1070,14 +1242,40 @@ def corr_units(ctx) -> None:
     rng = ctx.rng
     n = 400 if ctx.tier == "quick" else 3000
     exprs, impl, descr = [], [], []
+    import signal
+    current: Dict[str, Any] = {}
+
+    def on_alarm(_sig, _frm):
+        raise HistoryHang()
+
+    old_handler = signal.signal(signal.SIGALRM, on_alarm)
+    try:
+        _corr_units_cases(ctx, rng, n, exprs, impl, descr, current, signal)
+    except HistoryHang:
+        ctx.violation("unit-hang", f"a metadata mutator did not return within 10 s on the record {current.get('meta')}",
+                      {"kind": "unit", "case": current})
+        return
+    finally:
+        signal.setitimer(signal.ITIMER_REAL, 0)
+        signal.signal(signal.SIGALRM, old_handler)
+    _corr_units_compare(ctx, n, exprs, impl, descr)
+
+
+def _corr_units_cases(ctx, rng, n, exprs, impl, descr, current, signal) -> None:
+    from datashard.metadata_manager import MetadataManager
+    from datashard.snapshot_manager import SnapshotManager
+    from datashard.transaction import Transaction
     for _ in range(n):
         m = _rand_meta(rng)
+        current.clear()
+        current["meta"] = m
         mc = _meta_coq(m)
         cutoff = rng.choice([999, 1000, 1001, 1002, 5000])
         tq = rng.choice([998, 999, 1000, 1001, 1002])
         did = rng.choice([1, 2, 3, 4, 5, 6, 9])
         prev = rng.choice([1, 2, 3, 9] + ([m["mlog"][-1][1]] * 3 if m["mlog"] else []))
-        # real side
+        # real side (bounded: a mutator that loops on a corrupt record is a failing input, not a stuck check)
+        signal.setitimer(signal.ITIMER_REAL, 10.0)
         md = _meta_real(m)
         SnapshotManager._apply_retention(SnapshotManager(_StubMM(None)), md)
         r_ret = _view(md)
@@ -1100,11 +1298,15 @@ def corr_units(ctx) -> None:
         new_md, base_md = _meta_real(m), _meta_real(m)
         mm._append_metadata_log(new_md, base_md, f"f{prev}")
         r_ml = [(e["timestamp-ms"], int(e["metadata-file"][len("metadata/f"):])) for e in new_md.metadata_log]
+        signal.setitimer(signal.ITIMER_REAL, 0)
         impl.append((r_ret, r_exp, r_mr, r_ts, r_del, r_ml))
         descr.append({"meta": m, "cutoff": cutoff, "t": tq, "delete": did, "prev_file": prev})
         exprs.append(f"let m := {mc} in (0, view (apply_retention m), view (expire ({cutoff}) m), most_recent m, "
                      f"sview (by_timestamp m ({tq})), option_map view (delete_snapshot m ({did})), "
                      f"append_mlog (prevmax m) (mlog m) (last_updated m) {prev})")
+
+
+def _corr_units_compare(ctx, n, exprs, impl, descr) -> None:
     got = coq_eval_batched(exprs, preamble=UNIT_PRE, chunk=100)
     names = ["apply_retention", "expire", "most_recent", "by_timestamp", "delete_snapshot", "append_metadata_log"]
     bad = []
@@ -1124,6 +1326,7 @@ def check_histories(ctx) -> None:
     nh = 150 if ctx.tier == "quick" else 700
     max_steps = 20 if ctx.tier == "quick" else 45
     hists = [gen_history(ctx.rng, max_steps) for _ in range(nh)]
+    hists += [gen_shape_history(ctx.rng, max_steps) for _ in range(60 if ctx.tier == "quick" else 400)]
     hists = CORPUS + hists
     results = run_histories(ctx, hists, "h")
     # ---- oracle (implementation only)
@@ -1139,11 +1342,28 @@ def check_histories(ctx) -> None:
                 continue
             seen_keys.add(key)
             small = shrink(ctx, r["hist"], oracle_fails(ctx, key))
-            rr = run_history((os.path.join(ctx.scratch, "final"), small))
+            rr = run_isolated(os.path.join(ctx.scratch, "final"), small)
             what2 = next((w for k, w in rr["oracle"] if k == key), what)
             ctx.violation(f"wf:{key}", what2, {"kind": "history", "history": small, "oracle_key": key})
+    # ---- a library call that does not return / exhausts memory is a failing input, never a stuck check
+    for kind in ("hang", "crash"):
+        bad_runs = [r for r in results if r.get(kind)]
+        ctx.stats[f"histories_{kind}"] = len(bad_runs)
+        if bad_runs:
+            first = min(bad_runs, key=lambda r: len(r["hist"]["ops"]))
+            limit = 12.0
+
+            def still(h: Dict[str, Any], kind=kind) -> bool:
+                return bool(run_isolated(os.path.join(ctx.scratch, "shrink"), dict(h, _limit_s=limit)).get(kind))
+
+            small = shrink(ctx, first["hist"], still, budget=8) if still(first["hist"]) else first["hist"]
+            ctx.violation(f"history-{kind}",
+                          (f"an operation of the history did not return within its time limit: {first[kind]}" if kind == "hang"
+                           else f"the library failed outside its own error handling while running the history: {first[kind]}"),
+                          {"kind": "history", "history": small, kind: first[kind]})
     ctx.stats["history_steps"] = steps
     ctx.stats["histories"] = len(results)
+    ctx.stats["reregistrations"] = sum(r["shape"].get("reregistered", 0) for r in results)
     oc: Dict[str, int] = {}
     kinds: Dict[str, int] = {}
     for r in results:
@@ -1158,7 +1378,7 @@ def check_histories(ctx) -> None:
     ctx.stats["library_exceptions"] = sum(len(r["excs"]) for r in results)
     ctx.sample({"history": results[len(CORPUS)]["hist"], "model_ops": results[len(CORPUS)]["model_ops"][:6]})
     # ---- correspondence
-    cases = [r for r in results if r["model_ops"] and not r.get("driver_error")]
+    cases = [r for r in results if r["model_ops"] and not r.get("driver_error") and not r.get("hang") and not r.get("crash")]
     try:
         models = model_states(cases)
     except RuntimeError as e:
@@ -1176,7 +1396,7 @@ def check_histories(ctx) -> None:
         first = bad[0]
         if "step" in first:
             small = shrink(ctx, first["history"], corr_fails(ctx), budget=25)
-            rr = run_history((os.path.join(ctx.scratch, "final"), small))
+            rr = run_isolated(os.path.join(ctx.scratch, "final"), small)
             try:
                 d2 = compare_history(rr, model_states([rr])[0])
             except RuntimeError:
@@ -1227,11 +1447,24 @@ CORPUS: List[Dict[str, Any]] = [
     {"ops": [{"k": "txn", "ops": [["append", [0, 1, 0, 1]]], "t": 1000, "tu": 1000},
              {"k": "txn", "ops": [["delete", [[1, 1], [2, 0], [3, 2]]], ["append", ["auto"]]], "t": 999, "tu": 1000},
              {"k": "txn", "ops": [["delete", [[4, 0], [5, 1]]]], "t": 999, "tu": 998}], "uuid_seed": 2, "t0": 1000},
+    # seed C15-b (a delete that stops reading manifests once every path was found once): one path registered by
+    # two commits, a second file in between, then the delete -- every registration must go
+    {"ops": [{"k": "txn", "ops": [["append", ["auto"]]], "t": 1000, "tu": 1000},
+             {"k": "txn", "ops": [["append", ["auto"]]], "t": 1000, "tu": 1000},
+             {"k": "txn", "ops": [["append", [["re", 0, 1]]]], "t": 1000, "tu": 1000},
+             {"k": "txn", "ops": [["delete", [[1, 1]]]], "t": 1000, "tu": 1000}], "uuid_seed": 3, "t0": 1000},
+    # the same file three times: twice inside one append_files call (one manifest), once more under the other
+    # spelling by a later commit; deleted together with an unrelated file, re-registered in the deleting transaction
+    {"ops": [{"k": "txn", "ops": [["append", [1]]], "t": 1000, "tu": 1000},
+             {"k": "txn", "ops": [["append", [["re", 0, 0], ["re", 0, 1]]], ["append", ["auto"]]], "t": 1001, "tu": 1000},
+             {"k": "txn", "ops": [["append", [["re", 1, 1], ["re", 0, 0]]]], "t": 1001, "tu": 1002},
+             {"k": "txn", "ops": [["delete", [[1, 0]]], ["append", [["re", 0, 1]]]], "t": 1002, "tu": 1002},
+             {"k": "txn", "ops": [["delete", [[1, 1], [2, 0]]]], "t": 1002, "tu": 1003}], "uuid_seed": 4, "t0": 1000},
 ]
 
 
 def run(ctx) -> None:
-    ctx.rule = ("histories: random operation lists over {append, multi-op transaction, delete_files (3 spellings), expire, "
+    ctx.rule = ("histories: random operation lists over {append, multi-op transaction, re-registration of listed files, delete_files (3 spellings), expire, "
                 "delete_snapshot, retention property, metadata-log bound, empty transaction, garbage_collect} with scripted "
                 "equal/decreasing/arbitrary timestamps; state compared after every step; a history is distinct by its full op list. "
                 "forests: every parent map on <= 5 snapshots (cycles, self loops), maps with None/-1/dangling parents, duplicated ids, "
@@ -1294,10 +1527,13 @@ def replay(ctx, payload) -> int:
     if hist is None:
         print("replay: payload carries no history; re-run ./bin/check C15 thorough")
         return 2
-    r = run_history((os.path.join(ctx.scratch, "replay"), hist))
+    r = run_isolated(os.path.join(ctx.scratch, "replay"), hist)
+    for kind in ("hang", "crash"):
+        if r.get(kind):
+            print(f"replay: {kind}: {r[kind]}")
     for k, w in r["oracle"]:
         print("replay: oracle", k, "-", w)
-    rc = 1 if r["oracle"] else 0
+    rc = 1 if (r["oracle"] or r.get("hang") or r.get("crash")) else 0
     try:
         d = compare_history(r, model_states([r])[0]) if r["model_ops"] else None
         if d is not None:
